@@ -2,6 +2,9 @@ import Proofs.Lemmas.LieExp
 import Proofs.Lemmas.LieExpBounds
 import Proofs.Lemmas.Sim3Bounds
 import Proofs.Lemmas.ExpBatch
+import Proofs.Lemmas.Sim3Blocks
+import Proofs.Lemmas.RoundedExp
+import Proofs.Lemmas.ExpGlueReal
 /-!
 # C01 — `Exp` is the matrix exponential on so3, se3, rxso3 and sim3
 
@@ -357,6 +360,124 @@ theorem deepcopy_independent {β γ : Type} (f : β → γ) (s : Store β) (dst 
     readObj f (runOps s [.deepcopy dst src, .setitem src i y]) src = (readObj f s src).set i (f y) :=
   deepcopy_then_setitem f s dst src i y h
 
+/-! ## 5c. Block-wise statement for every input (pass 3)
+
+The property speaks of the rotation and scale blocks and of the translation block separately. -/
+
+/-- **sim3, every input, block-wise** (`0 ≤ eps ≤ 1`): rotation/scale block within `e^σ·eps⁴/8` (i.e. `eps⁴/8` relative to
+the scale), translation column within `(8·eps + e^{|σ|}·eps³/2)·‖τ‖₁` (homogeneous in `τ`: zero translation is exact),
+bottom row exactly `(0,0,0,1)`. -/
+theorem sim3Exp_blocks_all (eps : ℝ) (x : sim3 ℝ) (h0 : 0 ≤ eps) (h1 : eps ≤ 1) :
+    (∀ a b : Fin 3, |(Sim3matrix (sim3Exp eps x)).toMatrix4 a.castSucc b.castSucc
+        - NormedSpace.exp (sim3Gen x) a.castSucc b.castSucc| ≤ Real.exp x.sigma * (eps ^ 4 / 8)) ∧
+    (∀ a : Fin 3, |(Sim3matrix (sim3Exp eps x)).toMatrix4 a.castSucc (Fin.last 3)
+        - NormedSpace.exp (sim3Gen x) a.castSucc (Fin.last 3)|
+        ≤ (8 * eps + Real.exp |x.sigma| * (eps ^ 3 / 2)) * (|x.tau.x| + |x.tau.y| + |x.tau.z|)) ∧
+    (∀ j : Fin 4, (Sim3matrix (sim3Exp eps x)).toMatrix4 (Fin.last 3) j = NormedSpace.exp (sim3Gen x) (Fin.last 3) j) :=
+  sim3_blocks_all eps x h0 h1
+
+/-! ## 5d. Rounded arithmetic (pass 3)
+
+The float code stores `q̃ ≈ q`, `s̃ ≈ s`, `t̃ ≈ t` and `matrix()` adds its own rounding.  Hypotheses: the distances of the
+stored blocks to the model's exact blocks (`γq` componentwise up to the overall sign, `γs` relative, `γt` absolute) and of the
+stored matrix to the exact matrix of the stored element (`γM`) — these four numbers are measured by the correspondence
+check on every sampled case.  Conclusions hold for every input. -/
+
+/-- **so3 in rounded arithmetic**: norm defect `≤ 16γq + eps⁶`, every matrix entry within `γM + 16γq + eps⁴/8` of `exp(x^)` -/
+theorem rounded_so3Exp (eps γq γM : ℝ) (h0 : 0 ≤ eps) (h1 : eps ≤ 1) (hq1 : γq ≤ 1) (x : Vec3 ℝ) (p : Quat ℝ)
+    (M : Matrix (Fin 3) (Fin 3) ℝ)
+    (hq : QuatNear γq p (so3Exp eps x) ∨ QuatNear γq p (so3Exp eps x).neg)
+    (hM : ∀ i j, |M i j - (SO3matrix p).toMatrix i j| ≤ γM) :
+    |p.normSq - 1| ≤ 16 * γq + eps ^ 6 ∧
+    ∀ i j, |M i j - NormedSpace.exp (hatM x) i j| ≤ γM + 16 * γq + eps ^ 4 / 8 := by
+  obtain ⟨hn, hR⟩ := rounded_so3_core eps γq h0 h1 hq1 x p hq
+  refine ⟨hn, fun i j => ?_⟩
+  have e : M i j - NormedSpace.exp (hatM x) i j = (M i j - (SO3matrix p).toMatrix i j)
+      + ((SO3matrix p).toMatrix i j - (SO3matrix (so3Exp eps x)).toMatrix i j)
+      + ((SO3matrix (so3Exp eps x)).toMatrix i j - NormedSpace.exp (hatM x) i j) := by ring
+  rw [e]
+  have := so3Exp_matrix_all eps x h0 h1 i j
+  exact le_trans (abs_add_three _ _ _) (by linarith [hM i j, hR i j])
+
+/-- **sim3 in rounded arithmetic**: every entry of the stored matrix is within
+`γM + e^σ((1+γs)·16γq + 3γs) + γt + 9·eps·e^{|σ|}(1+‖τ‖₁)` of `exp(ξ^)` -/
+theorem rounded_sim3Exp (eps γq γs γt γM : ℝ) (h0 : 0 ≤ eps) (h1 : eps ≤ 1) (hq1 : γq ≤ 1) (hs0 : 0 ≤ γs) (ht0 : 0 ≤ γt)
+    (x : sim3 ℝ) (Y : Sim3 ℝ) (M : Matrix (Fin 4) (Fin 4) ℝ)
+    (hq : QuatNear γq Y.q (so3Exp eps x.phi) ∨ QuatNear γq Y.q (so3Exp eps x.phi).neg)
+    (hs : |Y.s - Real.exp x.sigma| ≤ γs * Real.exp x.sigma)
+    (ht : ∀ i, |Y.t.toFun i - (sim3Exp eps x).t.toFun i| ≤ γt)
+    (hM : ∀ i j, |M i j - (Sim3matrix Y).toMatrix4 i j| ≤ γM) (i j : Fin 4) :
+    |M i j - NormedSpace.exp (sim3Gen x) i j|
+      ≤ γM + (Real.exp x.sigma * ((1 + γs) * (16 * γq) + 3 * γs) + γt)
+        + 9 * eps * Real.exp |x.sigma| * (1 + (|x.tau.x| + |x.tau.y| + |x.tau.z|)) := by
+  have e : M i j - NormedSpace.exp (sim3Gen x) i j = (M i j - (Sim3matrix Y).toMatrix4 i j)
+      + ((Sim3matrix Y).toMatrix4 i j - (Sim3matrix (sim3Exp eps x)).toMatrix4 i j)
+      + ((Sim3matrix (sim3Exp eps x)).toMatrix4 i j - NormedSpace.exp (sim3Gen x) i j) := by ring
+  rw [e]
+  have a := rounded_sim3_core eps γq γs γt h0 h1 hq1 hs0 ht0 x Y hq hs ht i j
+  have b := sim3Exp_matrix_all eps x h0 h1 i j
+  exact le_trans (abs_add_three _ _ _) (by linarith [hM i j])
+
+/-- the stored scale stays positive whenever its relative error is below 1 -/
+theorem rounded_scale_pos (γs s σ : ℝ) (hγ : γs < 1) (hs : |s - Real.exp σ| ≤ γs * Real.exp σ) : 0 < s := by
+  have he := Real.exp_pos σ
+  rw [abs_le] at hs
+  nlinarith
+
+/-! ## 5e. The public path: dispatch, shapes, dtype-dependent eps (pass 3)
+
+`ppExp lt dt shape data` (`lean/Pose/Model/ExpGlue.lean`) models `pp.Exp(pp.LieTensor(data, ltype=lt))` for a tensor of dtype
+`dt`: constructor check, type dispatch, `lshape` handling, `eps = finfo(dt).eps`, kernels row by row. -/
+
+/-- accepted exactly for the four algebra types with matching last dimension (any rank ≥ 1, any batch extents incl. 0) -/
+theorem ppExp_accepts_iff {α : Type} [Scalar α] (lt : LType) (dt : DType) (shape : List Nat) (data : List α)
+    (hn : data.length = numel shape) :
+    (∃ X, ppExp lt dt shape data = .ok X) ↔ (lt.onManifold = true ∧ shape.getLast? = some lt.dim) :=
+  ppExp_ok_iff lt dt shape data hn
+
+/-- a group-type argument is rejected ("Lie Group has no Exp attribute") -/
+theorem ppExp_group_raises {α : Type} [Scalar α] (lt : LType) (dt : DType) (shape : List Nat) (data : List α)
+    (hd : shape.getLast? = some lt.dim) (hn : data.length = numel shape) (hg : lt.onManifold = false) :
+    ppExp lt dt shape data = .error .noExp := ppExp_group lt dt shape data hd hn hg
+
+/-- a last dimension that does not match the type is rejected by the constructor -/
+theorem ppExp_lastDim_raises {α : Type} [Scalar α] (lt : LType) (dt : DType) (shape : List Nat) (data : List α)
+    (h : shape.getLast? ≠ some lt.dim) : ppExp lt dt shape data = .error .lastDim := ppExp_lastDim lt dt shape data h
+
+/-- on a well-formed batch (any `lshape`, rows of the type's width): group type, shape `lshape ++ [embedding]`, size, and row `i`
+of the result is the kernel applied to row `i` of the argument with `eps = finfo(dtype).eps` -/
+theorem ppExp_shape_and_items {α : Type} [Scalar α] (lt g : LType) (dt : DType) (lshape : List Nat) (rows : List (List α))
+    (hg : lt.expTarget = some g) (hlen : rows.length = numel lshape) (hrow : ∀ r ∈ rows, r.length = lt.dim) :
+    ∃ X, ppExp lt dt (lshape ++ [lt.dim]) rows.flatten = .ok X ∧ X.ltype = g ∧ X.shape = lshape ++ [g.dim] ∧
+      X.data.length = numel X.shape ∧ chunks g.dim X.data = rows.map (itemExp dt.eps lt) :=
+  ppExp_rows lt g dt lshape rows hg hlen hrow
+
+/-- every dtype's threshold satisfies the hypotheses `0 < eps ≤ 1` of the `*_all` theorems -/
+theorem dtype_eps_range (d : DType) : 0 < (d.eps : ℝ) ∧ (d.eps : ℝ) ≤ 1 ∧ (d.eps : ℝ) = 1 / 2 ^ d.mant :=
+  ⟨DType.eps_pos d, DType.eps_le_one d, DType.eps_real d⟩
+
+/-- end to end, so3: for every dtype and every row, `matrix()` of the kernel result (read back from the flat list) is within
+`eps(dtype)⁴/8` of `exp` of the row's generator -/
+theorem pipeline_so3 (dt : DType) (r : List ℝ) (i j : Fin 3) :
+    |flat3 (itemMatrix .SO3 (itemExp dt.eps .so3 r)) i j - NormedSpace.exp (hatM (rowToSo3 r)) i j| ≤ (dt.eps : ℝ) ^ 4 / 8 := by
+  rw [glue_so3_matrix]; exact so3Exp_matrix_all _ _ (DType.eps_pos dt).le (DType.eps_le_one dt) i j
+
+theorem pipeline_se3 (dt : DType) (r : List ℝ) (i j : Fin 4) :
+    |flat4 (itemMatrix .SE3 (itemExp dt.eps .se3 r)) i j - NormedSpace.exp (se3Gen (rowToSe3 r)) i j|
+      ≤ (dt.eps : ℝ) ^ 3 / 8 * (1 + |(rowToSe3 r).tau.x| + |(rowToSe3 r).tau.y| + |(rowToSe3 r).tau.z|) := by
+  rw [glue_se3_matrix]; exact se3Exp_matrix_all _ _ (DType.eps_pos dt).le (DType.eps_le_one dt) i j
+
+theorem pipeline_rxso3 (dt : DType) (r : List ℝ) (i j : Fin 4) :
+    |flat4 (itemMatrix .RxSO3 (itemExp dt.eps .rxso3 r)) i j - NormedSpace.exp (rxso3Gen (rowToRxso3 r)) i j|
+      ≤ Real.exp (rowToRxso3 r).sigma * ((dt.eps : ℝ) ^ 4 / 8) := by
+  rw [glue_rxso3_matrix]; exact rxso3Exp_matrix_all _ _ (DType.eps_pos dt).le (DType.eps_le_one dt) i j
+
+theorem pipeline_sim3 (dt : DType) (r : List ℝ) (i j : Fin 4) :
+    |flat4 (itemMatrix .Sim3 (itemExp dt.eps .sim3 r)) i j - NormedSpace.exp (sim3Gen (rowToSim3 r)) i j|
+      ≤ 9 * (dt.eps : ℝ) * Real.exp |(rowToSim3 r).sigma|
+        * (1 + (|(rowToSim3 r).tau.x| + |(rowToSim3 r).tau.y| + |(rowToSim3 r).tau.z|)) := by
+  rw [glue_sim3_matrix]; exact sim3Exp_matrix_all _ _ (DType.eps_pos dt).le (DType.eps_le_one dt) i j
+
 /-! ## 6. Non-vacuity: the hypotheses are satisfiable by non-trivial values -/
 
 -- witnesses `eps64`, `x0 = (0.3,-0.2,0.5)`, `xtiny = (1e-17,0,0)` and their elementary facts live in Lemmas/Sim3Bounds.lean
@@ -396,6 +517,22 @@ example (i j : Fin 4) :
       ≤ Real.exp (1 / 10 ^ 17) * (xtiny.norm ^ 4 / 8)
         + (4 * (Real.exp |(1 / 10 ^ 17 : ℝ)| - 1) + xtiny.norm ^ 3 / 16) * (|(1:ℝ)| + |(2:ℝ)| + |(3:ℝ)|) :=
   sim3Exp_matrix_regime1 eps64 ⟨⟨1, 2, 3⟩, xtiny, 1 / 10 ^ 17⟩ eps64_le_one xtiny_small xtiny_pos sigma_small (by positivity) i j
+
+
+-- pass 3: the rounded-arithmetic hypotheses are satisfiable (a stored quaternion off by 1e-3 in one component), the glue accepts
+-- a (2,3)-batch of se3 rows and rejects a group type
+example : QuatNear (1 / 1000) ⟨(so3Exp eps64 x0).x + 1 / 1000, (so3Exp eps64 x0).y, (so3Exp eps64 x0).z, (so3Exp eps64 x0).w⟩
+    (so3Exp eps64 x0) := by
+  refine ⟨?_, ?_, ?_, ?_⟩ <;> simp
+example : |(⟨(so3Exp eps64 x0).x + 1 / 1000, (so3Exp eps64 x0).y, (so3Exp eps64 x0).z, (so3Exp eps64 x0).w⟩ : Quat ℝ).normSq - 1|
+    ≤ 16 * (1 / 1000) + eps64 ^ 6 :=
+  (rounded_so3Exp eps64 (1 / 1000) 0 eps64_pos.le eps64_le_one (by norm_num) x0
+    ⟨(so3Exp eps64 x0).x + 1 / 1000, (so3Exp eps64 x0).y, (so3Exp eps64 x0).z, (so3Exp eps64 x0).w⟩
+    (SO3matrix ⟨(so3Exp eps64 x0).x + 1 / 1000, (so3Exp eps64 x0).y, (so3Exp eps64 x0).z, (so3Exp eps64 x0).w⟩).toMatrix
+    (Or.inl (by refine ⟨?_, ?_, ?_, ?_⟩ <;> simp)) (by intro i j; simp)).1
+example : ∃ X, ppExp (α := ℝ) .se3 .f32 [2, 3, 6] (List.replicate 36 0) = .ok X :=
+  (ppExp_accepts_iff .se3 .f32 [2, 3, 6] _ (by simp [numel])).mpr ⟨rfl, rfl⟩
+example : ppExp (α := ℝ) .SE3 .f64 [0, 7] [] = .error .noExp := ppExp_group_raises _ _ _ _ rfl (by simp [numel]) rfl
 
 end
 end PP
